@@ -462,6 +462,12 @@ class NumpyCodegenMapper(CachedMapper[str, Never, []]):
                             if are_shape_components_equal(dim, idx.stop)
                             else idx.stop)
                 else:
+                    if are_shape_components_equal(-1, idx.start):
+                        # a normalized start of -1 is "before the first
+                        # element": nothing is visited (written as -1 in
+                        # the source it would mean the last element)
+                        return ast.Slice(lower=_constant(0), upper=_constant(0))
+
                     start = (None
                              if are_shape_components_equal(dim-1, idx.start)
                              else idx.start)
